@@ -1,9 +1,13 @@
 #!/bin/sh
-# usage: tools/thorough_smoke.sh [wall seconds]  - every check's thorough configuration for a short wall budget
+# usage: [CHECKS="c06 c07"] tools/thorough_smoke.sh [wall seconds]
+#   every (or the listed) check's thorough configuration for a short wall budget
 wall=${1:-120}
-for c in c01 c02 c03 c04 c05 c06 c07 c08 c09 c10 c11 c12 c13 c15 c17 c18 c19; do
-  VERIF_SKIP_MUTANTS=1 /venv/bin/python -m checks.$c --tier thorough --wall $wall --no-evidence > /tmp/thsmoke_$c.log 2>&1
+checks=${CHECKS:-c01 c02 c03 c04 c05 c06 c07 c08 c09 c10 c11 c12 c13 c15 c17 c18 c19}
+for c in $checks; do
+  log=/tmp/thsmoke_$$_$c.log
+  VERIF_SKIP_MUTANTS=1 /venv/bin/python -m checks.$c --tier thorough --wall $wall --no-evidence > $log 2>&1
   rc=$?
-  echo "$c exit=$rc $(grep -E '^runs=' /tmp/thsmoke_$c.log | cut -c1-90) $(grep -c '^VIOLATION' /tmp/thsmoke_$c.log) violations"
-  grep -E "^violation sig|HARNESS" /tmp/thsmoke_$c.log | cut -c1-300
+  echo "$c exit=$rc $(grep -E '^runs=' $log | cut -c1-90) $(grep -c '^VIOLATION' $log) violations"
+  grep -E "^violation|HARNESS" $log | cut -c1-400
+  rm -f $log
 done
